@@ -33,7 +33,7 @@ RESYNC = {"DQN": {"net:actor_target": "net:actor"}}
 # parent's sigma_inv / theta_0 over the re-initialised ones, so nothing differs: measured, not assumed)
 REINIT: dict = {}
 # bookkeeping attributes that legitimately differ between parent and child
-DIFFER_OK = {"attr:index"}
+DIFFER_OK = {"attr:index", "attr:c01_tag"}
 
 MUT_KINDS = ["arch", "param", "act", "rl_hp", "none"]
 
@@ -59,6 +59,7 @@ class Pop:
                 cfg["encoder_config"]["activation"] = "ReLU"
             kw["net_config"] = cfg
         root = A.build(algo, family, seed=seed, share_encoders=share, hp_config=A.default_hp_config(algo), **kw)
+        root.c01_tag = 0                     # parent marker used by the `select` op (copied by clone)
         self.agents: dict[int, object] = {0: root}
         self.next = 1
         self.groups = {0: walker.agent_groups(root)}
@@ -106,7 +107,7 @@ class Pop:
         kind = op[0]
         before_vals = {i: self.values(i) for i in self.agents}
         before_cells = {i: self.cellsets(i) for i in self.agents}
-        actor = op[1] if len(op) > 1 else None
+        actor = op[1] if len(op) > 1 and kind != "select" else None
         if actor is not None and actor not in self.agents:
             return
         if kind == "clone":
@@ -117,6 +118,10 @@ class Pop:
             self.lines.append(f"heap clone {self.model_index(actor)}")
             self.remeasure([j] + [actor])
             self.after_clone(actor, j)
+            # after_clone acts with parent and child (bandits: the confidence matrix is saved and restored,
+            # i.e. re-bound to a new tensor): measure again so that no stale storage address is kept —
+            # a freed address can be reused by another agent's tensor and would look like sharing
+            self.remeasure()
             changed_actor = actor
             self.tags.append("clone")
         elif kind == "learn":
@@ -142,6 +147,43 @@ class Pop:
             self.remeasure()
             changed_actor = actor
             self.tags.append("discard")
+        elif kind == "select":
+            # one tournament round over the live agents (elitism on): the elite and every member of the new
+            # generation are clones; the old agents stay alive here so that they are observed as bystanders
+            from agilerl.hpo.tournament import TournamentSelection
+            live = sorted(self.agents)
+            if len(live) > 3 or len(live) < 2:
+                return
+            for t, i in enumerate(live):
+                ag = self.agents[i]
+                ag.fitness = list(ag.fitness) + [float((op[1] * (t + 3)) % 7)]
+                ag.c01_tag = i
+            self.remeasure()                  # the scores just assigned are part of the "before" picture
+            before_vals = {i: self.values(i) for i in self.agents}
+            before_cells = {i: self.cellsets(i) for i in self.agents}
+            ts = TournamentSelection(tournament_size=2, elitism=True, population_size=len(live), eval_loop=1)
+            np.random.seed(op[1] % (2 ** 31))
+            elite, newpop = ts.select([self.agents[i] for i in live])
+            e_parent = elite.c01_tag
+            e_id = self.next
+            self.next += 1
+            self.agents[e_id] = elite
+            self.lines.append(f"heap clone {e_parent}")
+            pairs = [(e_parent, e_id)]
+            for k, member in enumerate(newpop):
+                parent = e_id if k == 0 else member.c01_tag       # slot 0 is a copy of the elite object
+                j = self.next
+                self.next += 1
+                self.agents[j] = member
+                self.lines.append(f"heap clone {parent}")
+                pairs.append((parent, j))
+            self.remeasure()
+            for parent, child in pairs:
+                self.after_clone(parent, child)
+            self.remeasure()
+            changed_actor = None
+            kind = "select"
+            self.tags.append("select")
         elif kind == "append":
             ag = self.agents[actor]
             ag.fitness.append(float(op[2]))
@@ -162,7 +204,7 @@ class Pop:
                     self.problems.append(
                         f"{kind} on agent {changed_actor} changed {n} of agent {i} (independence broken)")
         # --- mirror the actor's own changes into the model so that its views stay in step
-        if changed_actor in self.agents and kind != "clone":
+        if changed_actor in self.agents and kind not in ("clone", "select"):
             now_v, now_c = self.values(changed_actor), self.cellsets(changed_actor)
             mi = self.model_index(changed_actor)
             for n in self.names:
@@ -280,6 +322,10 @@ def run_history(chk: Check, algo: str, family: str, share, seed: int, ops, mode=
 def gen_history(rng: random.Random, length: int):
     ops = [["learn", 0, rng.randrange(1000)], ["clone", 0]]
     n = 2
+    if rng.random() < 0.5:
+        # one tournament round early on: elite + a new generation of two (ids 2, 3, 4), old agents stay alive
+        ops += [["learn", 1, rng.randrange(1000)], ["select", rng.randrange(1, 1000)]]
+        n = 5
     for _ in range(length):
         r = rng.random()
         i = rng.randrange(n)
@@ -290,8 +336,11 @@ def gen_history(rng: random.Random, length: int):
             n += 1
         elif r < 0.80:
             ops.append(["mutate", i, rng.choice(MUT_KINDS), rng.randrange(1000)])
-        elif r < 0.90:
+        elif r < 0.86:
             ops.append(["append", i, rng.randrange(100)])
+        elif r < 0.93:
+            ops.append(["select", rng.randrange(1, 1000)])
+            n += 0            # ids of the new generation are allocated by the harness; later ops address old ids
         else:
             ops.append(["discard", i])
     # always end by training the latest clone and its parent
